@@ -39,7 +39,7 @@ Theorem send_node_creates U ns e parent origin now :
   let x := e_down e in
   let npts := map (fill_origin origin) (node_rows ns x) in
   let epts := sent_edge_points e origin now in
-  has_nan npts = false ->
+  has_nan npts = false -> bad_times npts = false -> bad_times epts = false ->
   (* the request for the new edge is acceptable: numbers, no self edge, no root deletion, no cycle, a node type *)
   has_nan epts = false -> x <> parent -> x <> s_root U ->
   find_edge (s_edges U) parent x = None ->
@@ -52,7 +52,7 @@ Theorem send_node_creates U ns e parent origin now :
   (forall u d, (u, d) <> (parent, x) -> edge_rows U' u d = edge_rows U u d) /\
   good U'.
 Proof.
-  intros GU Hpar x npts epts Hn1 Hn2 Hself Hroot Hfind Hup Hnt. cbv zeta. rewrite send_node_unfold.
+  intros GU Hpar x npts epts Hn1 Hb1 Hb2 Hn2 Hself Hroot Hfind Hup Hnt. cbv zeta. rewrite send_node_unfold.
   fold x. fold npts. fold epts.
   (* the node points *)
   set (U1 := wr U (NodePts x npts)).
@@ -61,7 +61,7 @@ Proof.
                (forall y, y <> x -> node_rows (s_nodes U1) y = node_rows (s_nodes U) y)).
   { unfold U1, wr. cbn [handle]. destruct (node_points U x npts) as [st'|err] eqn:E; cbn [fst].
     - destruct (node_points_nodes_ok U x npts st' (proj2 GU) E) as (A & B & _). split; assumption.
-    - exfalso. unfold node_points in E. rewrite Hn1 in E. destruct (merge_batch false _ _). discriminate. }
+    - exfalso. unfold node_points in E. rewrite Hn1, Hb1 in E. destruct (merge_batch false _ _). discriminate. }
   assert (E1 : forall u d, edge_rows U1 u d = edge_rows U u d) by (intros u d; apply wr_np_rows).
   assert (S1 : s_edges U1 = s_edges U \/ True) by (right; exact I).
   assert (R1 : s_root U1 = s_root U) by apply wr_np_root.
@@ -75,7 +75,7 @@ Proof.
   set (U2 := wr U1 (EdgePts x parent epts)).
   assert (G2 : good U2) by (apply good_wr; [exact G1|exact Hpar]).
   assert (Acc : exists st', edge_points U1 x parent epts = Ok st').
-  { unfold edge_points. rewrite Hn2, (bytes_neq_eqb x parent Hself), R1, (bytes_neq_eqb x (s_root U) Hroot). cbn [andb].
+  { unfold edge_points. rewrite Hn2, Hb2, (bytes_neq_eqb x parent Hself), R1, (bytes_neq_eqb x (s_root U) Hroot). cbn [andb].
     assert (match parent with [] => str_root | _ :: _ => parent end = parent) as -> by (destruct parent; [contradiction|reflexivity]).
     rewrite F1.
     assert (Hup1 : is_upstream (s_edges U1) (fuel_of (s_edges U1)) x parent = false).
